@@ -5,6 +5,7 @@
 package engfix
 
 import (
+	"sort"
 	"sync"
 	"sync/atomic"
 )
@@ -27,6 +28,19 @@ func Entry(s string, p []byte, n int) {
 	badNestedGuard(s, n)
 	goodToggle(n)
 	badToggle(n)
+	goodSortLess(p)
+	badSortLess(p, p[:n])
+}
+
+// the less function of sort.Slice is called with indices of the slice passed: a post-condition on the
+// parameters of the function literal, valid when it indexes that very slice (ip_h1r3.go)
+func goodSortLess(p []byte) {
+	sort.Slice(p, func(i, j int) bool { return p[i] < p[j] })
+}
+
+// ... and not when it indexes another one
+func badSortLess(p, q []byte) {
+	sort.Slice(p, func(i, j int) bool { return q[i] < q[j] })
 }
 
 // a counter that is reflected inside {0, 1}: the interval fixpoint over the phis bounds it (ip_h1.go)
